@@ -209,6 +209,10 @@ func init() {
 		x.cronExprs[sched.Id.S] = x.scalar(st, c.args[0])
 		return x.finish(st, fr, c, VTuple{[]Value{sched, x.freshErr(st, "cron.parse.err", Not(fail))}})
 	})
+	reg("(*database/sql.Row).Err", "row.Err(): the error, if any, of starting the query: nil or an arbitrary error (errors met while stepping the statement are reported by Scan)", func(x *Exec, st *State, fr *Frame, c *callCtx) bool {
+		fails := x.sym.Fresh("row.err", SBool)
+		return x.finish(st, fr, c, x.freshErr(st, "row.err", Not(fails)))
+	})
 	reg("github.com/robfig/cron/v3.NewParser", "cron.NewParser(options): an opaque parser value", func(x *Exec, st *State, fr *Frame, c *callCtx) bool {
 		return x.finish(st, fr, c, x.symbolicResult(st, c))
 	})
